@@ -30,7 +30,7 @@ const (
 )
 
 var mcNames = [mcCount]string{
-	"valid", "field-neg", "field-0-1", "field-off-by-1", "field-boundary", "field-2^20/2^24-sample", "field-huge",
+	"valid", "field-neg", "field-0-1", "field-off-by-1", "field-boundary", "field-2^24-sample", "field-huge",
 	"truncation", "bitflip", "splice", "random", "random-body", "cross", "special-large",
 	"segment-header-crc-fixed", "segment-payload-crc-fixed", "compression-prefix", "compression-block",
 }
@@ -69,7 +69,7 @@ type fieldVal struct {
 }
 
 // fieldValues lists the values the big-endian field of width w (current value old) takes in the
-// exhaustive sweep: -1, -2, 0, 1, old-1, old+1, 2^7, 2^8-1, 2^15, 2^16-1, 2^20, restricted to those
+// exhaustive sweep: -1, -2, 0, 1, old-1, old+1, 2^7, 2^8-1, 2^15, 2^16-1, restricted to those
 // the width can hold (as a bit pattern) and different from old; duplicates removed.
 func fieldValues(w int, old uint32, out []fieldVal) []fieldVal {
 	out = out[:0]
@@ -104,7 +104,6 @@ func fieldValues(w int, old uint32, out []fieldVal) []fieldVal {
 	}
 	if w == 4 {
 		add(1<<16-1, mcBoundary)
-		add(1<<20, mcBig24)
 	}
 	return out
 }
@@ -112,7 +111,7 @@ func fieldValues(w int, old uint32, out []fieldVal) []fieldVal {
 var hugeValues = []int64{1 << 28, 1<<31 - 1, -(1 << 31), 1 << 25, 1 << 30}
 
 // makesHuge reports whether the mutation of cur[o:o+w] turned a length-like 4-byte window (one that
-// holds 0..65535 or a negative number in the base) into a value in [2^21, 2^31). Such mutants are what the 2^24 sample and
+// holds 0..65535 or a negative number in the base) into a value in [2^17, 2^31). Such mutants are what the 2^24 sample and
 // the resource table (2^25..2^31-1) are for; in the exhaustive sweep each would cost an allocation
 // of 2 MiB..48 GiB wherever the window really is a length or count, so they are not generated there.
 // This is scheduling, not judging: nothing is decided from it.
@@ -125,7 +124,7 @@ func makesHuge(base, cur []byte, o, w int) bool {
 	for p := lo; p < o+w && p+4 <= n; p++ {
 		small := base[p] == 0 && base[p+1] == 0                                                  // 0..65535
 		marker := base[p] == 0xFF && base[p+1] == 0xFF && base[p+2] == 0xFF && base[p+3] >= 0xF0 // -1, -2, ...: null / unset markers
-		if (small || marker) && cur[p] < 0x80 && (cur[p] != 0 || cur[p+1] >= 0x20) {
+		if (small || marker) && cur[p] < 0x80 && (cur[p] != 0 || cur[p+1] >= 0x02) {
 			return true
 		}
 	}
